@@ -2,10 +2,9 @@
    model (mwmodel) and the in-kernel cross-check: a case is a list of naturals
    (first = interface id), a result is a line of ASCII codes.                  *)
 From Coq Require Import String.
-From MW Require Import Model.Base Model.Lex Model.Highlight.
+From MW Require Import Model.Base Model.F64 Model.Num Model.NumFmt Model.Datum Model.Lex Model.Highlight Model.Parse.
 Open Scope N_scope.
 
-Definition S_ (s : string) : list N := ascii_of_string s.
 
 Definition show_ttype (t : ttype) : list N :=
   S_ match t with
@@ -32,10 +31,36 @@ Definition show_out {A} (f : A -> list N) (o : out A) : list N :=
 
 Definition show_bool (b : bool) : list N := if b then S_ " true" else S_ " false".
 
+(* parse_text: the datum in write form and the byte offset where the remaining
+   text starts (NONE when nothing remains) *)
+Definition show_parse_text (t : text) (r : cell * option text) : list N :=
+  32 :: esc_text (write (fst r)) ++
+  match snd r with
+  | None => S_ " NONE"
+  | Some rest => S_ " REST " ++ show_N (blen t - blen rest)
+  end.
+
+(* the datum-by-datum loop of the front ends (Vm::eval_text callers): parse_text
+   repeatedly on the remaining text; fuel = number of bytes + 1 *)
+Fixpoint parse_all (fuel : nat) (t : text) (acc : list N) : list N :=
+  match fuel with
+  | O => acc ++ S_ " NOFUEL"
+  | S f =>
+      match parse_text t with
+      | Ok (d, None) => acc ++ 32 :: esc_text (write d) ++ S_ " END"
+      | Ok (d, Some rest) => parse_all f rest (acc ++ 32 :: esc_text (write d))
+      | Err e => acc ++ 32 :: show_err e
+      | Panic _ => acc ++ S_ " PANIC"
+      | NoFuel => acc ++ S_ " NOFUEL"
+      end
+  end.
+
 Definition run_case (c : list N) : list N :=
   match c with
   | 1 :: t => show_out (flat_map show_token) (scan t)
   | 2 :: i :: t => show_out (fun r => 32 :: esc_text r) (highlight t i)
   | 3 :: i :: t => show_out show_bool (highlight_check t i)
+  | 4 :: t => show_out (show_parse_text t) (parse_text t)
+  | 5 :: t => S_ "ALL" ++ parse_all (S (length t)) t []
   | _ => S_ "BADCASE"
   end.
